@@ -60,6 +60,26 @@ enum {
   MYTH_VP_BULK_JOINED = 173   /* the thread of [a,c) has been joined and [c,b) is done; a = (void*)a, b = (void*)b, v = c */
 };
 
+/* context-switch callbacks (C03): point MYTH_VP_CTX_CALLBACK is the first statement of every
+   MYTH_CTX_CALLBACK function (it runs on the target stack); a = arg1, b = arg2,
+   v = which callback (MYTH_VP_CTX_CB_*) */
+#define MYTH_VP_HAVE_CTX_CALLBACK 1
+enum {
+  MYTH_VP_CTX_CALLBACK = 300,
+  MYTH_VP_CTX_CB_CREATE_1 = 1,
+  MYTH_VP_CTX_CB_YIELD_EX_1 = 2,
+  MYTH_VP_CTX_CB_JOIN_2 = 3,
+  MYTH_VP_CTX_CB_JOIN_3 = 4,
+  MYTH_VP_CTX_CB_ENTRY_POINT_1 = 5,
+  MYTH_VP_CTX_CB_ENTRY_POINT_2 = 6,
+  MYTH_VP_CTX_CB_BLOCK_ON_QUEUE_CB = 7,
+  MYTH_VP_CTX_CB_BLOCK_ON_STACK_CB = 8,
+  MYTH_VP_CTX_CB_UNCOND_WAIT_CB = 9,
+  MYTH_VP_CTX_CB_STARTPOINT_INIT_EX_1 = 10,
+  MYTH_VP_CTX_CB_STARTPOINT_EXIT_EX_1 = 11,
+  MYTH_VP_CTX_CB_N = 12
+};
+
 #ifdef MYTH_VERIF
 
 #ifdef __cplusplus
